@@ -812,3 +812,76 @@ Proof.
   - split; [vm_compute; reflexivity|]. split; [reflexivity|]. split; [repeat constructor|]. split; [reflexivity|].
     split; [reflexivity|]. split; vm_compute; reflexivity.
 Qed.
+
+(* ======================================================================================================================
+   REPAIRED LOCAL EIGENSOLVER (pytenet/minimization.py after "fix: limit Lanczos iterations in local energy minimization to
+   the dimension of the local problem"):
+
+       def _minimize_local_energy(L, R, W, Astart, numiter: int):
+           numiter = min(numiter, Astart.size)
+           w, u_ritz = eigh_krylov(lambda x: apply_local_hamiltonian(L, R, W, x.reshape(Astart.shape)).reshape(-1),
+                                   Astart.reshape(-1), numiter, 1)
+
+   The theorems above about keig_lanczos (the solver WITHOUT the cap) stay as they are.  The history theorem
+   [C02_history_inv] and the run theorems [C02_dmrg1_run_sparse] / [C02_dmrg2_run_sparse] are generic in the eigensolver
+   argument [keig]; what mentions keig_lanczos explicitly is C02_local_solvers_sparse and the two "calls meet contracts"
+   theorems.  Their analogues for the capped solver keig_lanczos_cap (Proofs/LinkSolversCap.v: keig_lanczos with
+   min(numiter, site_size A) iterations, site_size A = d*Dl*Dr = Astart.size) are below (Proofs/Hist2SolversCap.v); "the call
+   returns" refers to the capped run (a zero-size start tensor gives cap 0: the call does not return, the code raises). *)
+From PT Require Import Proofs.LinkSolversCap Proofs.Hist2SolversCap.
+
+Theorem C02_local_eigensolver_cap_sparse : forall (F : ofield) dnorm small deigh numiter qd qwl qwr ql qr
+    (BL BR : env (Cx F)) (W : osite (Cx F)),
+  0 < length qd -> 0 < length qwl -> 0 < length qwr -> osite_okP (Cx F) qd qwl qwr W ->
+  env_okP (Cx F) ql qwl ql BL -> env_okP (Cx F) qr qwr qr BR ->
+  forall pos A, site_okP (Cx F) qd ql qr A -> keig_lanczos_cap_returns F dnorm small deigh numiter BL BR W A ->
+    site_okP (Cx F) qd ql qr (snd (keig_lanczos_cap F dnorm small deigh numiter pos BL BR W A)).
+Proof. exact keig_lanczos_cap_okP. Qed.
+Print Assumptions C02_local_eigensolver_cap_sparse.
+
+(* a returning call of the repaired solver had numiter >= 1 and a non-empty start tensor *)
+Theorem C02_eigensolver_cap_returns_nonempty : forall (F : ofield) dnorm small deigh numiter (BL BR : env (Cx F)) (W : osite (Cx F)) (A : site (Cx F)),
+  keig_lanczos_cap_returns F dnorm small deigh numiter BL BR W A -> 1 <= numiter /\ 1 <= site_size A.
+Proof. exact keig_lanczos_cap_returns_pos. Qed.
+Print Assumptions C02_eigensolver_cap_returns_nonempty.
+
+(* single-site traces: per-call contracts with the capped eigensolver (the TDVP solvers are unchanged) *)
+Theorem C02_lanczos_cap_calls_meet_contracts : forall (F : ofield) dnorm small deigh dexp dexpm numiter qr
+    (Hs : list (osite (Cx F))) qd qWs (dt hdt : Cx F),
+  0 < length qd -> chainP (osite_okP (Cx F) qd) qWs Hs -> (forall j, j <= length Hs -> 0 < length (nth j qWs [])) ->
+  forall tr, lzc_tr_ok F dnorm small deigh dexp dexpm numiter qr Hs dt hdt tr ->
+  sp_tr_ok (Cx F) qr (kexp_lanczos F dnorm small deigh dexp dexpm numiter) (kexp0_lanczos F dnorm small deigh dexp dexpm numiter)
+           (keig_lanczos_cap F dnorm small deigh numiter) Hs qd qWs dt hdt tr.
+Proof. exact lzc_tr_sp. Qed.
+Print Assumptions C02_lanczos_cap_calls_meet_contracts.
+
+(* two-site traces *)
+Theorem C02_lanczos2_cap_calls_meet_contracts : forall (F : ofield) dnorm small deigh dexp dexpm numiter qr split
+    (Hs : list (osite (Cx F))) qd qWs (dt hdt : Cx F),
+  0 < length qd -> chainP (osite_okP (Cx F) qd) qWs Hs -> (forall j, j <= length Hs -> 0 < length (nth j qWs [])) ->
+  forall tr, lzc2_tr_ok F dnorm small deigh dexp dexpm numiter qr split Hs dt hdt tr ->
+  sp2_tr_ok (Cx F) qr split (kexp_lanczos F dnorm small deigh dexp dexpm numiter) (kexp0_lanczos F dnorm small deigh dexp dexpm numiter)
+            (keig_lanczos_cap F dnorm small deigh numiter) Hs qd qWs dt hdt tr.
+Proof. exact lzc2_tr_sp. Qed.
+Print Assumptions C02_lanczos2_cap_calls_meet_contracts.
+
+(* the instances of the generic run theorems: whole DMRG runs with the repaired solver keep [mps_ok] *)
+Theorem C02_dmrg_cap_run_sparse : forall (F : ofield) dnorm small deigh numiter orth qr (H : mpo (Cx F)) (psi : mps (Cx F)) n A qD ens tr,
+  mpo_ok H = true -> o_qd H = m_qd psi -> Forall (fun q => 0 < length q) (o_qD H) ->
+  hd [] (o_qD H) = [0%Z] -> last (o_qD H) [] = [0%Z] ->
+  0 < length (m_qd psi) -> m_qd (fst (orth psi)) = m_qd psi -> mps_ok (fst (orth psi)) = true ->
+  length (hd [] (m_qD (fst (orth psi)))) = 1 -> length (last (m_qD (fst (orth psi))) []) = 1 ->
+  (dmrg_singlesite orth qr (keig_lanczos_cap F dnorm small deigh numiter) H psi n = Some (A, qD, ens, tr) ->
+   sp_tr_ok (Cx F) qr (fun _ _ _ _ X _ => X) (fun _ _ _ C _ => C) (keig_lanczos_cap F dnorm small deigh numiter)
+            (o_A H) (m_qd psi) (o_qD H) (k0 (Cx F)) (k0 (Cx F)) (rev tr) ->
+   mps_ok (mkmps (m_qd psi) qD A) = true) /\
+  (forall split, dmrg_twosite orth qr split (keig_lanczos_cap F dnorm small deigh numiter) H psi n = Some (A, qD, ens, tr) ->
+   sp2_tr_ok (Cx F) qr split (no_kexp (Cx F)) (no_kexp0 (Cx F)) (keig_lanczos_cap F dnorm small deigh numiter)
+             (o_A H) (m_qd psi) (o_qD H) (k0 (Cx F)) (k0 (Cx F)) (rev tr) ->
+   mps_ok (mkmps (m_qd psi) qD A) = true).
+Proof.
+  intros F dnorm small deigh numiter orth qr H psi n A qD ens tr HokH Eqd Hpos Hh0 Hl0 Hd Eqd1 Hok1 Hh1 Hl1. split.
+  - intros Hrun Hok. exact (dmrg1_mps_ok (Cx F) orth qr _ H psi n A qD ens tr Hrun HokH Eqd Hpos Hh0 Hl0 Hd Eqd1 Hok1 Hh1 Hl1 Hok).
+  - intros split Hrun Hok. exact (dmrg2_mps_ok (Cx F) orth qr split _ H psi n A qD ens tr Hrun HokH Eqd Hpos Hh0 Hl0 Hd Eqd1 Hok1 Hh1 Hl1 Hok).
+Qed.
+Print Assumptions C02_dmrg_cap_run_sparse.
